@@ -95,6 +95,95 @@ def midside_parity_rules(F, rep, P):
     rep.floor(P + ".wide", "mid-side reconstructions (ordinary and 33-bit)", n, 2)
 
 
+def _bps_arm_constants(b):
+    """for a body that switches on the discriminant of a stream::BitsPerSample: variant index -> bit-count constants used in that arm"""
+    for bi, bl in enumerate(b.blocks):
+        t = bl["t"]
+        if not t or t["t"] != "switch":
+            continue
+        dl = op_local(t["o"])
+        if not any(st["d"]["l"] == dl and st["rv"]["r"] == "disc" and st["rv"].get("ty") == "stream::BitsPerSample" for bl2 in b.blocks for st in bl2["s"]):
+            continue
+        out = {}
+        for val, tgt in t["v"]:
+            syms, cur, seen = set(), tgt, set()
+            while cur is not None and cur not in seen:
+                seen.add(cur)
+                blk = b.blocks[cur]
+                ops = [o for st in blk["s"] for o in rv_operands(st["rv"])]
+                tt = blk["t"]
+                if tt and tt["t"] == "call":
+                    ops += tt["a"]
+                for o in ops:
+                    k = op_const(o)
+                    if k is not None and k["ty"].startswith("bitstream_io::SignedBitCount<") and k.get("s"):
+                        syms.add(k["s"])
+                nxt = b.succs(cur)
+                nxt = [n for n in nxt if not b.blocks[n]["cleanup"]]
+                cur = nxt[0] if len(nxt) == 1 and len(b.preds()[nxt[0]]) == 1 else None
+            out[val] = syms
+        return out
+    return None
+
+
+def bps_constant_agreement(F, rep, rule):
+    """sibling agreement: every function that maps the frame header's bit-depth codes to a bit count constant (conversion to a
+    SignedBitCount, the +1 of a side channel in checked_add ..) uses, per variant, the constant the plain conversion uses"""
+    ref = [b for b in F.bodies if b.promoted is None and re.search(r"From<stream::BitsPerSample> for bitstream_io::SignedBitCount<32>>::from$", b.path)]
+    if len(ref) != 1:
+        rep.bad(rule, "anchor:From<BitsPerSample> for SignedBitCount<32>", "", "conversion not found")
+        return
+    rt = _bps_arm_constants(ref[0])
+    good = rt is not None and len([v for v in rt.values() if len(v) == 1]) >= 6 and len({tuple(v) for v in rt.values() if v}) == len([v for v in rt.values() if v])
+    rep.check(rule, "From<BitsPerSample> for SignedBitCount<32>: one distinct constant per fixed bit-depth code", bool(good), loc_of(ref[0]), str(rt))
+    if not good:
+        return
+    n = 0
+    for b in F.bodies:
+        if b.promoted is not None or b is ref[0] or not re.match(r"<?(stream|decode|encode|audio)::", b.path):
+            continue
+        at = _bps_arm_constants(b)
+        if not at or sum(1 for v in at.values() if v) < 2:
+            continue
+        n += 1
+        wrong = {k: sorted(v) for k, v in at.items() if v and rt.get(k) and v != rt[k]}
+        rep.check(rule, "%s uses the same bit-count constant per bit-depth code as the plain conversion" % strip_generics(b.path), not wrong, loc_of(b), "",
+                  "bit-depth code(s) %s map to a different bit count here than in From<BitsPerSample> for SignedBitCount: %s (conversion: %s) - a side channel of that depth is read / written one size off" % (
+                      sorted(wrong), wrong, {k: sorted(rt[k]) for k in wrong}))
+    rep.floor(rule, "functions mapping bit-depth codes to bit-count constants", n, 1)
+
+
+def accept_rules(ctx, F, rep, R):
+    """the readers refuse their input only for the reviewed reasons: per reader function (closures included) and error, no more
+    raise sites than spec/reject_sites.json lists - a further rejection on the parse path is how a valid stream gets refused"""
+    inv = ctx.spec("reject_sites.json")["sites"]
+    got = {}
+    for b in F.bodies:
+        if b.promoted is not None or not (b.file.endswith("stream.rs") or b.file.endswith("decode.rs")):
+            continue
+        top = re.sub(r"(::\{closure#\d+\})+$", "", b.path)
+        top = top if top.startswith("<") or top.startswith("stream::<") else strip_generics(top)
+        if not re.search(r"from_reader|::read|::parse|read_|try_from", top):
+            continue
+        for bl in b.blocks:
+            if bl["cleanup"]:
+                continue
+            for st in bl["s"]:
+                rv = st["rv"]
+                if rv["r"] == "agg" and rv.get("adt") == "Error":
+                    got.setdefault((top, rv["var"]), []).append(b.loc(st["sp"]))
+    n = 0
+    for (top, var), locs in sorted(got.items()):
+        want = inv.get(top, {}).get(var, 0)
+        n += len(locs)
+        if len(locs) <= want:
+            rep.ok(R, "%s raises Error::%s at %d reviewed site(s)" % (top, var, len(locs)), locs[0])
+        else:
+            rep.bad(R, "%s raises Error::%s at more sites than reviewed" % (top, var), locs[-1],
+                    "%d raise site(s) of Error::%s in %s, %d reviewed in spec/reject_sites.json: a reader that refuses more than the format's rules refuses some valid stream" % (len(locs), var, top, want))
+    rep.floor(R, "raise sites of the readers", n, 40)
+
+
 def run(ctx, rep):
     F = ctx.facts()
     spec = ctx.spec("rfc9639.json")
@@ -277,6 +366,8 @@ def run(ctx, rep):
             rep.check("C03.wide", "33-bit reconstruction in %s is done in 64 bits (no i32 arithmetic before widening)" % strip_generics(cb.path).rsplit("::", 1)[-1] , not narrow, loc_of(cb),
                       "", "wide side-channel reconstruction performs %s on i32 before widening: overflows for loud 32-bit material" % narrow)
         rep.floor("C03.wide", "wide reconstruction closures", nw, 3)
+    bps_constant_agreement(F, rep, "C03.wide")
+    accept_rules(ctx, F, rep, "C03.accept")
     rb = F.one("decode::read_residuals::read_block")
     rep.check("C03.wide", "read_block is generic over the sample type (i32 and i64 instantiations share one body)", len(rb) == 1, "", "")
 
@@ -301,3 +392,4 @@ def run(ctx, rep):
     compose(ctx, rep, "C05", "C03.valid", r"^C05\.(short|eof)$")
     compose(ctx, rep, "C07", "C03.bytes", r"^C07\.width$")
     compose(ctx, rep, "C11", "C03.md5", r"^C11\.sentinel$", key_only=r"from_reader reports md5")
+    compose(ctx, rep, "C16", "C03.params", r"^C16\.params$")
